@@ -4,7 +4,15 @@
    with NBLOCKS >= 1 (the C code indexes mm[j] and computes (j+1) % NBLOCKS).  Main invariant:
    every block of the system heap has exactly one owner (a live non-window matrix, a live matrix
    whose header was malloc'd, a block-cache slot with non-zero size, or the header-cache list),
-   expressed with occurrence counts; header-slot bits of the [used] masks count the live headers. *)
+   expressed with occurrence counts; header-slot bits of the [used] masks count the live headers.
+
+   Part I  : system allocator and block cache (mmc.c): sys_alloc_inv, sys_free_inv, mmc_malloc_inv,
+             mmc_free_inv, mmc_cleanup_inv.
+   Part II : header cache (mzd_t_malloc_inv, mzd_t_free_inv), matrix layer (mzd_init_inv,
+             mzd_init_window_inv, mzd_free_inv, do_write_inv, fini_inv), histories (step_HInv,
+             run_HInv) and the theorems used by Properties/Properties_C14.v:
+             alloc_inv, trace_ok, no_double_free, fresh_zero, live_disjoint, free_any_order,
+             window_free_keeps_data, fini_retains, no_retention, plus vm_compute Examples. *)
 From Coq Require Import List NArith Bool Arith Lia.
 From M4 Require Import Sys.Alloc.
 Import ListNotations.
@@ -593,3 +601,1234 @@ Proof.
   - injection E as <- <-. split; [exact HI|]. split; [apply evs_ok_nil; reflexivity|].
     split; [apply hrel_refl; reflexivity|]. repeat (split; [reflexivity|]). discriminate.
 Qed.
+
+(* ======================================================================================== *)
+(* Part II -- the header cache (mzd_t_malloc / mzd_t_free of mzd.c: slot taken with
+   log2_floor(~used), walk from the static block, spill to a new 64-slot block, plain malloc beyond
+   CACHE_MAX blocks, unlink-and-free of an emptied non-first block), the matrix layer (mzd_init,
+   mzd_init_window, mzd_free, the user's writes, m4ri_fini), the induction over ARBITRARY op lists
+   and the C14 theorems (alloc_inv, trace_ok, no_double_free, fresh_zero, live_disjoint,
+   free_any_order, window_free_keeps_data, fini_retains, no_retention).                         *)
+(* ======================================================================================== *)
+
+(** * Bits of the [used] masks *)
+Lemma FULL_bit e : N.testbit FULL e = (e <? 64).
+Proof.
+  change FULL with (N.ones 64). destruct (N.ltb_spec e 64).
+  - apply N.ones_spec_low; lia.
+  - apply N.ones_spec_high; lia.
+Qed.
+
+(* log2_floor(~used) is the index of a clear bit below 64 *)
+Lemma free_entry u :
+  bounded u -> u <> FULL -> N.log2 (N.lxor u FULL) < 64 /\ N.testbit u (N.log2 (N.lxor u FULL)) = false.
+Proof.
+  intros Hb Hne. set (e := N.log2 (N.lxor u FULL)).
+  assert (Hx : N.lxor u FULL <> 0). { intros H. apply N.lxor_eq in H. auto. }
+  pose proof (N.bit_log2 _ Hx) as Hbit. fold e in Hbit.
+  rewrite N.lxor_spec, FULL_bit in Hbit.
+  destruct (N.ltb_spec e 64).
+  - split; auto. destruct (N.testbit u e); cbn in Hbit; congruence.
+  - rewrite Hb in Hbit by lia. discriminate.
+Qed.
+
+Lemma setbit_spec u e e' : N.testbit (N.lor u (N.shiftl 1 e)) e' = N.testbit u e' || (e =? e').
+Proof. rewrite N.lor_spec, N.shiftl_1_l, N.pow2_bits_eqb. reflexivity. Qed.
+
+Lemma clearbit_spec u e e' : N.testbit (clearbit u e) e' = N.testbit u e' && negb (e =? e').
+Proof. unfold clearbit. rewrite N.ldiff_spec, N.shiftl_1_l, N.pow2_bits_eqb. reflexivity. Qed.
+
+Lemma bounded_setbit u e : bounded u -> e < 64 -> bounded (N.lor u (N.shiftl 1 e)).
+Proof.
+  intros Hb He e' H. rewrite setbit_spec, Hb by auto. destruct (N.eqb_spec e e'); auto. lia.
+Qed.
+
+Lemma bounded_clearbit u e : bounded u -> bounded (clearbit u e).
+Proof. intros Hb e' H. rewrite clearbit_spec, Hb by auto. reflexivity. Qed.
+
+Lemma bounded_0 : bounded 0.
+Proof. intros e _. apply N.bits_0. Qed.
+
+Lemma setbit_nz u e : N.lor u (N.shiftl 1 e) <> 0.
+Proof.
+  intros H. pose proof (setbit_spec u e e) as H1. rewrite H, N.bits_0, N.eqb_refl, orb_true_r in H1.
+  discriminate.
+Qed.
+
+(** * The list of header blocks *)
+Lemma oeqb_spec a b : reflect (a = b) (oeqb a b).
+Proof.
+  destruct a as [x|], b as [y|]; cbn; try (constructor; congruence).
+  destruct (N.eqb_spec x y); constructor; congruence.
+Qed.
+
+Notation hkeys := (map (@fst (option N) N)).
+
+Lemma hb_used_notin hb c : ~ In c (hkeys hb) -> hb_used hb c = 0.
+Proof.
+  induction hb as [|[r u] t IH]; cbn; auto. intros H. destruct (oeqb_spec r c); [tauto|]. apply IH. tauto.
+Qed.
+
+Lemma hb_used_set hb c v c' :
+  hb_used (hb_set hb c v) c' = if oeqb c c' then (if in_dec (fun a b => reflect_dec _ _ (oeqb_spec a b)) c (hkeys hb) then v else 0)
+                               else hb_used hb c'.
+Proof.
+  induction hb as [|[r u] t IH]; cbn [hb_set hb_used map fst].
+  - destruct (oeqb c c'); reflexivity.
+  - destruct (oeqb_spec r c) as [->|Hrc]; cbn [hb_used].
+    + destruct (oeqb_spec c c'); auto.
+      destruct (in_dec _ c (c :: hkeys t)) as [|n]; auto. exfalso; apply n; left; auto.
+    + destruct (oeqb_spec r c') as [->|Hrc'].
+      * destruct (oeqb_spec c c'); [congruence|reflexivity].
+      * rewrite IH. destruct (oeqb_spec c c'); auto.
+        destruct (in_dec _ c (hkeys t)), (in_dec _ c (r :: hkeys t)); auto; cbn in *; tauto.
+Qed.
+
+Lemma hb_used_set_same hb c v : In c (hkeys hb) -> hb_used (hb_set hb c v) c = v.
+Proof.
+  intros H. rewrite hb_used_set. destruct (oeqb_spec c c); [|congruence].
+  destruct (in_dec _ c (hkeys hb)); tauto.
+Qed.
+
+Lemma hb_used_set_other hb c v c' : c <> c' -> hb_used (hb_set hb c v) c' = hb_used hb c'.
+Proof. intros H. rewrite hb_used_set. destruct (oeqb_spec c c'); congruence. Qed.
+
+Lemma hkeys_set hb c v : hkeys (hb_set hb c v) = hkeys hb.
+Proof. induction hb as [|[r u] t IH]; cbn; auto. destruct (oeqb r c); cbn; congruence. Qed.
+
+Lemma hb_ids_keys hb : flat_map hb_ids hb = flat_map olist (hkeys hb).
+Proof. induction hb as [|[r u] t IH]; cbn; auto. unfold hb_ids at 1. cbn. congruence. Qed.
+
+Lemma hb_ids_set hb c v : flat_map hb_ids (hb_set hb c v) = flat_map hb_ids hb.
+Proof. rewrite !hb_ids_keys, hkeys_set. reflexivity. Qed.
+
+Lemma Forall_hb_set (P : option N * N -> Prop) hb c v :
+  Forall P hb -> P (c, v) -> Forall P (hb_set hb c v).
+Proof.
+  intros H Hv. induction H as [|[r u] t H1 H2 IH]; cbn; auto.
+  destruct (oeqb_spec r c) as [->|]; constructor; auto.
+Qed.
+
+Lemma hb_used_In hb c : In c (hkeys hb) -> In (c, hb_used hb c) hb.
+Proof.
+  induction hb as [|[r u] t IH]; cbn; [tauto|]. intros H.
+  destruct (oeqb_spec r c) as [->|Hne]; auto. right. apply IH. destruct H; congruence.
+Qed.
+
+(* removal *)
+Lemma hb_used_remove_other hb c c' : c <> c' -> hb_used (hb_remove hb c) c' = hb_used hb c'.
+Proof.
+  intros H. induction hb as [|[r u] t IH]; cbn; auto.
+  destruct (oeqb_spec r c) as [->|Hrc]; cbn.
+  - destruct (oeqb_spec c c'); congruence.
+  - rewrite IH. reflexivity.
+Qed.
+
+Lemma hkeys_remove_notin hb c : NoDup (hkeys hb) -> ~ In c (hkeys (hb_remove hb c)).
+Proof.
+  induction hb as [|[r u] t IH]; cbn; auto. intros H. inversion H; subst.
+  destruct (oeqb_spec r c) as [->|Hrc]; cbn; auto. intros [E|E]; [congruence|]. apply IH; auto.
+Qed.
+
+Lemma hkeys_remove_other hb c c' : c <> c' -> In c' (hkeys hb) -> In c' (hkeys (hb_remove hb c)).
+Proof.
+  intros Hne. induction hb as [|[r u] t IH]; cbn; auto.
+  destruct (oeqb_spec r c) as [->|Hrc]; cbn; intros [E|E]; auto; congruence.
+Qed.
+
+Lemma hb_remove_In hb c b : In b (hb_remove hb c) -> In b hb.
+Proof.
+  induction hb as [|[r u] t IH]; cbn; auto. destruct (oeqb r c); cbn; auto. intros [E|E]; auto.
+Qed.
+
+Lemma hb_ids_remove hb i x :
+  In (Some i) (hkeys hb) ->
+  (cnt (flat_map hb_ids (hb_remove hb (Some i))) x + (if N.eq_dec i x then 1 else 0)
+   = cnt (flat_map hb_ids hb) x)%nat.
+Proof.
+  induction hb as [|[r u] t IH]; cbn [hb_remove flat_map map fst]; [intros []|]. intros H.
+  destruct (oeqb_spec r (Some i)) as [->|Hrc].
+  - cbn. destruct (N.eq_dec i x); lia.
+  - destruct H as [H|H]; [congruence|]. specialize (IH H). cbn [flat_map]. rewrite !count_occ_app. lia.
+Qed.
+
+Lemma hb_prev_In hb c b : In (hb_prev hb c b) (b :: hkeys (hb_remove hb c)).
+Proof.
+  revert b. induction hb as [|[r u] t IH]; intros b; cbn [hb_prev hb_remove]; [left; auto|].
+  destruct (oeqb r c); [left; auto|]. cbn [map fst]. right. apply IH.
+Qed.
+
+Lemma hb_walk_some hb cur i c cur' i' :
+  hb_walk hb cur i = (Some c, cur', i') -> NoDup (hkeys hb) -> In c (hkeys hb) /\ hb_used hb c <> FULL.
+Proof.
+  revert cur i. induction hb as [|[r u] t IH]; intros cur i H Hnd; cbn in H; [discriminate|].
+  inversion Hnd; subst. cbn [map fst hb_used].
+  destruct (N.eqb_spec u FULL) as [->|Hne].
+  - match goal with Hn : NoDup (hkeys t) |- _ => destruct (IH _ _ H Hn) as [Ha Hb] end. split; [right; auto|].
+    destruct (oeqb_spec r c) as [->|]; auto.
+  - injection H as <- <- <-. split; [left; auto|]. destruct (oeqb_spec r r); congruence.
+Qed.
+
+Lemma hb_walk_none hb cur i cur' i' :
+  hb_walk hb cur i = (None, cur', i') -> In cur' (cur :: hkeys hb).
+Proof.
+  revert cur i. induction hb as [|[r u] t IH]; intros cur i H; cbn in H.
+  - injection H as <- <-. left; auto.
+  - destruct (u =? FULL); [|discriminate]. apply IH in H. cbn [map fst]. destruct H; auto.
+    right; left; auto. right; right; auto.
+Qed.
+
+Lemma hb_used_app_zero hb k c : hb_used (hb ++ [(k, 0)]) c = hb_used hb c.
+Proof.
+  induction hb as [|[r u] t IH]; cbn.
+  - destruct (oeqb k c); reflexivity.
+  - destruct (oeqb r c); auto.
+Qed.
+
+Lemma hb_used_snoc hb k v c :
+  ~ In k (hkeys hb) -> hb_used (hb ++ [(k, v)]) c = if oeqb k c then v else hb_used hb c.
+Proof.
+  induction hb as [|[r u] t IH]; cbn; intros H.
+  - destruct (oeqb k c); reflexivity.
+  - destruct (oeqb_spec r c) as [->|].
+    + destruct (oeqb_spec k c); auto. subst. tauto.
+    + apply IH. tauto.
+Qed.
+
+Lemma hb_set_snoc hb k u v : ~ In k (hkeys hb) -> hb_set (hb ++ [(k, u)]) k v = hb ++ [(k, v)].
+Proof.
+  induction hb as [|[r w] t IH]; cbn; intros H.
+  - destruct (oeqb_spec k k); congruence.
+  - destruct (oeqb_spec r k); [subst; tauto|]. rewrite IH; tauto.
+Qed.
+
+(** * Consequences of the invariant for the header list *)
+Lemma Inv_hb_nodup p s held hx : Inv p s held hx -> NoDup (hkeys (st_hb s)).
+Proof.
+  intros HI. destruct (I_head _ _ _ _ HI) as (u0 & rest & E & Hr).
+  assert (Hc : forall i, (cnt (flat_map hb_ids (st_hb s)) i <= 1)%nat).
+  { intros i. pose proof (Inv_excl _ _ _ _ i HI). rewrite owned_cnt in H. lia. }
+  rewrite E in *. cbn [map fst]. constructor.
+  - intros H. apply in_map_iff in H. destruct H as (b & H1 & H2).
+    rewrite Forall_forall in Hr. apply (Hr b); auto.
+  - cbn [flat_map hb_ids olist fst app] in Hc. clear E. induction rest as [|[r u] t IH]; cbn; constructor.
+    + inversion Hr; subst. cbn in H1. destruct r as [i|]; [|congruence].
+      intros H. specialize (Hc i). cbn [flat_map hb_ids olist fst app] in Hc. rewrite cnt_cons in Hc.
+      destruct (N.eq_dec i i); [|congruence].
+      assert (1 <= cnt (flat_map hb_ids t) i)%nat; [|lia].
+      apply in_map_iff in H. destruct H as ([r' u'] & H4 & H5). cbn in H4. subst r'.
+      pose proof (cnt_flat_map_in _ _ N.eq_dec hb_ids t _ i H5) as H6. cbn in H6.
+      destruct (N.eq_dec i i); [lia|congruence].
+    + inversion Hr; subst. apply IH; auto. intros i. specialize (Hc i).
+      cbn [flat_map] in Hc. rewrite count_occ_app in Hc. lia.
+Qed.
+
+Lemma Inv_hb_key_bound p s held hx i : Inv p s held hx -> In (Some i) (hkeys (st_hb s)) -> i < st_next s.
+Proof.
+  intros HI H. apply (I_bound _ _ _ _ HI). apply (Inv_in_keys _ _ _ _ i HI).
+  apply in_map_iff in H. destruct H as ([r u] & H1 & H2). cbn in H1. subst r.
+  pose proof (owned_hb _ _ _ H2). lia.
+Qed.
+
+Lemma Inv_set_hb p s held hx hb' cur' held' hx' :
+  Inv p s held hx ->
+  (forall x, (cnt held x + cnt (flat_map hb_ids (st_hb s)) x = cnt held' x + cnt (flat_map hb_ids hb') x)%nat) ->
+  (exists u0 rest, hb' = (None, u0) :: rest /\ Forall (fun b => fst b <> None) rest) ->
+  In cur' (hkeys hb') ->
+  Forall (fun b => bounded (snd b)) hb' ->
+  Forall (fun b => fst b <> None -> snd b <> 0) hb' ->
+  (forall c e, (hcnt (live_hdrs s) (HSlot c e) + hcnt hx' (HSlot c e))%nat = b2n (N.testbit (hb_used hb' c) e)) ->
+  Inv p (set_hb s hb' cur') held' hx'.
+Proof.
+  intros HI Hc Hh Hcur Hb Hnz Hbits.
+  destruct HI as [Iown Inodup Ibound Imlen Ij Islot Ihead Icur Ibnd Inz Ibits Imat].
+  unfold set_hb. constructor; sp; auto.
+  intros x. rewrite Iown, !owned_cnt. sp. specialize (Hc x). lia.
+Qed.
+
+Lemma hb_remove_set hb c v : hb_remove (hb_set hb c v) c = hb_remove hb c.
+Proof.
+  induction hb as [|[r u] t IH]; cbn; auto.
+  destruct (oeqb r c) eqn:E; cbn; rewrite E; congruence.
+Qed.
+
+Lemma Forall_hb_remove (P : option N * N -> Prop) hb c : Forall P hb -> Forall P (hb_remove hb c).
+Proof. rewrite !Forall_forall. intros H b Hb. apply H. eapply hb_remove_In; eauto. Qed.
+
+Lemma hcnt_cons h l x : hcnt (h :: l) x = ((if hslot_dec h x then 1 else 0) + hcnt l x)%nat.
+Proof. cbn. destruct (hslot_dec h x); reflexivity. Qed.
+
+(** * mzd_t_malloc *)
+Definition same_but_hb (s s' : state) : Prop :=
+  st_next s' = st_next s /\ st_heap s' = st_heap s /\ st_mmc s' = st_mmc s /\ st_j s' = st_j s /\
+  st_mats s' = st_mats s.
+
+Lemma same_but_hb_frame s s' : same_but_hb s s' -> evs_ok s [] s' /\ hrel s s'.
+Proof.
+  intros (A & B & _). split.
+  - apply evs_ok_nil. unfold tst. congruence.
+  - apply hrel_refl; congruence.
+Qed.
+
+Lemma take_slot_inv p s held hx c s' hd :
+  Inv p s held hx -> In c (hkeys (st_hb s)) -> hb_used (st_hb s) c <> FULL ->
+  take_slot s c = (s', hd) ->
+  Inv p s' held (hd :: hx) /\ same_but_hb s s' /\ hdr_ids hd = [].
+Proof.
+  intros HI Hin Hne E. unfold take_slot in E. apply pair_equal_spec in E. destruct E as [<- <-].
+  set (u := hb_used (st_hb s) c) in *. set (e := N.log2 (N.lxor u FULL)).
+  assert (Hbu : bounded u).
+  { pose proof (I_bnd _ _ _ _ HI) as H. rewrite Forall_forall in H. apply (H (c, u)). apply hb_used_In; auto. }
+  destruct (free_entry u Hbu Hne) as [He Hbit]. fold e in He, Hbit.
+  split; [|split; [repeat split|reflexivity]].
+  apply (Inv_set_hb p s held hx _ _ held (HSlot c e :: hx) HI).
+  - intros x. rewrite hb_ids_set. reflexivity.
+  - destruct (I_head _ _ _ _ HI) as (u0 & rest & E & Hr). rewrite E. cbn [hb_set].
+    destruct (oeqb_spec None c) as [<-|Hc]; eexists _, _; (split; [reflexivity|]); auto.
+    apply Forall_hb_set; auto.
+  - rewrite hkeys_set. auto.
+  - apply Forall_hb_set; [apply (I_bnd _ _ _ _ HI)|]. apply bounded_setbit; auto.
+  - apply Forall_hb_set; [apply (I_nz _ _ _ _ HI)|]. intros _. apply setbit_nz.
+  - intros c' e'. rewrite hcnt_cons. pose proof (I_bits _ _ _ _ HI c' e') as Hold.
+    destruct (oeqb_spec c c') as [<-|Hcc].
+    + rewrite hb_used_set_same, setbit_spec by auto. fold u in Hold.
+      destruct (N.eqb_spec e e') as [<-|Hee].
+      * rewrite orb_true_r. rewrite Hbit in Hold. destruct (hslot_dec (HSlot c e) (HSlot c e)); [|congruence].
+        cbn in *. lia.
+      * rewrite orb_false_r. destruct (hslot_dec (HSlot c e) (HSlot c e')); [congruence|]. exact Hold.
+    + rewrite hb_used_set_other by auto. destruct (hslot_dec (HSlot c e) (HSlot c' e')); [congruence|]. exact Hold.
+Qed.
+
+Lemma Inv_hx_malloc p s held hx i : Inv p s held hx <-> Inv p s held (HMalloc i :: hx).
+Proof.
+  split; intros H; eapply Inv_ext; eauto; intros c e; rewrite hcnt_cons;
+    destruct (hslot_dec (HMalloc i) (HSlot c e)); try discriminate; reflexivity.
+Qed.
+
+Lemma mzd_t_malloc_inv p s held hx s' hd ev :
+  Inv p s held hx -> mzd_t_malloc p s = (s', hd, ev) ->
+  Inv p s' (hdr_ids hd ++ held) (hd :: hx) /\ evs_ok s ev s' /\ hrel s s' /\
+  st_mmc s' = st_mmc s /\ st_j s' = st_j s /\ st_mats s' = st_mats s.
+Proof.
+  intros HI E. unfold mzd_t_malloc in E.
+  assert (Htake : forall c, In c (hkeys (st_hb s)) -> hb_used (st_hb s) c <> FULL ->
+            (let '(s1, hs) := take_slot s c in (s1, hs, @nil event)) = (s', hd, ev) ->
+            Inv p s' (hdr_ids hd ++ held) (hd :: hx) /\ evs_ok s ev s' /\ hrel s s' /\
+            st_mmc s' = st_mmc s /\ st_j s' = st_j s /\ st_mats s' = st_mats s).
+  { intros c Hin Hne E0. destruct (take_slot s c) as [s1 hs] eqn:Et. injection E0 as <- <- <-.
+    destruct (take_slot_inv _ _ _ _ _ _ _ HI Hin Hne Et) as (A & B & C).
+    destruct (same_but_hb_frame _ _ B) as [F1 F2]. destruct B as (_ & _ & B3 & B4 & B5).
+    rewrite C. cbn [app]. auto 10. }
+  assert (Hplain : forall s0, Inv p s0 held hx -> st_next s0 = st_next s -> st_heap s0 = st_heap s -> st_mmc s0 = st_mmc s -> st_j s0 = st_j s ->
+            st_mats s0 = st_mats s ->
+            (let '(s1, b, ev) := sys_alloc s0 HDR_SIZE in (s1, HMalloc b, ev)) = (s', hd, ev) ->
+            Inv p s' (hdr_ids hd ++ held) (hd :: hx) /\ evs_ok s ev s' /\ hrel s s' /\
+            st_mmc s' = st_mmc s /\ st_j s' = st_j s /\ st_mats s' = st_mats s).
+  { intros s0 HI0 T0 T1 M0 J0 A0 E0. destruct (sys_alloc s0 HDR_SIZE) as [[s1 b] ev1] eqn:E1. injection E0 as <- <- <-.
+    destruct (sys_alloc_inv _ _ _ _ _ _ _ _ HI0 E1) as (HI1 & B1 & C1 & D1 & D2 & D3 & D4 & D5 & _).
+    split; [apply Inv_hx_malloc; exact HI1|].
+    split; [eapply evs_ok_tst; [|exact B1]; unfold tst; congruence|].
+    split; [eapply hrel_eq; [| |exact C1]; congruence|].
+    repeat split; congruence. }
+  destruct (enable_mzd_cache p); [|apply (Hplain s); auto].
+  destruct (N.eqb_spec (hb_used (st_hb s) (st_cur s)) FULL) as [Hfull|Hnf];
+    [|apply (Htake (st_cur s)); auto; apply (I_cur _ _ _ _ HI)].
+  pose proof (Inv_hb_nodup _ _ _ _ HI) as Hnd.
+  destruct (hb_walk (st_hb s) (st_cur s) 0) as [[[c|] last] i] eqn:Ew.
+  - destruct (hb_walk_some _ _ _ _ _ _ Ew Hnd) as [Hin Hne]. apply (Htake c); auto.
+  - destruct (Nat.ltb i (CACHE_MAX p)).
+    + (* a new header block *)
+      destruct (sys_alloc s HBLOCK_SIZE) as [[s1 b] ev1] eqn:E1.
+      destruct (sys_alloc_inv _ _ _ _ _ _ _ _ HI E1) as (HI1 & B1 & C1 & D1 & D2 & D3 & D4 & D5 & _ & Hb).
+      assert (Hnotin : ~ In (Some b) (hkeys (st_hb s1))).
+      { rewrite D3. intros H. apply (Inv_hb_key_bound _ _ _ _ _ HI) in H. lia. }
+      set (v := N.lor 0 (N.shiftl 1 63)).
+      assert (Et : take_slot (set_hb s1 (st_hb s1 ++ [(Some b, 0)]) (Some b)) (Some b)
+                   = (set_hb s1 (st_hb s1 ++ [(Some b, v)]) (Some b), HSlot (Some b) 63)).
+      { unfold take_slot, set_hb. sp. rewrite hb_used_app_zero, hb_used_notin by auto.
+        change (N.log2 (N.lxor 0 FULL)) with 63. rewrite hb_set_snoc by auto. reflexivity. }
+      rewrite Et in E. injection E as <- <- <-. cbn [hdr_ids app].
+      split; [|split; [eapply evs_ok_tst; [|exact B1]; reflexivity|
+               split; [eapply hrel_trans; [apply (I_bound _ _ _ _ HI)|exact C1|apply hrel_refl; reflexivity]|
+               repeat split; assumption]]].
+      apply (Inv_set_hb p s1 (b :: held) hx _ _ held (HSlot (Some b) 63 :: hx) HI1).
+      * intros x. rewrite cnt_flat_map_app. change (flat_map hb_ids [(Some b, v)]) with [b].
+        rewrite !cnt_cons. cbn [count_occ]. destruct (N.eq_dec b x); lia.
+      * destruct (I_head _ _ _ _ HI1) as (u0 & rest & E & Hr). rewrite E.
+        exists u0, (rest ++ [(Some b, v)]). split; [reflexivity|]. apply Forall_app. split; auto.
+        constructor; [discriminate|constructor].
+      * rewrite map_app. apply in_or_app. right. left. reflexivity.
+      * apply Forall_app. split; [apply (I_bnd _ _ _ _ HI1)|]. constructor; [|constructor].
+        apply bounded_setbit; [apply bounded_0|lia].
+      * apply Forall_app. split; [apply (I_nz _ _ _ _ HI1)|]. constructor; [|constructor].
+        intros _. apply setbit_nz.
+      * intros c' e'. rewrite hb_used_snoc, hcnt_cons by auto.
+        pose proof (I_bits _ _ _ _ HI1 c' e') as Hold.
+        destruct (oeqb_spec (Some b) c') as [<-|Hcc].
+        -- rewrite hb_used_notin, N.bits_0 in Hold by auto. unfold v. rewrite setbit_spec, N.bits_0.
+           destruct (N.eqb_spec 63 e') as [<-|Hee].
+           ++ destruct (hslot_dec (HSlot (Some b) 63) (HSlot (Some b) 63)); [|congruence]. cbn in *. lia.
+           ++ destruct (hslot_dec (HSlot (Some b) 63) (HSlot (Some b) e')); [congruence|]. exact Hold.
+        -- destruct (hslot_dec (HSlot (Some b) 63) (HSlot c' e')); [congruence|]. exact Hold.
+    + (* plain malloc beyond CACHE_MAX blocks *)
+      apply (Hplain (set_hb s (st_hb s) last)); auto.
+      apply (Inv_set_hb p s held hx _ _ held hx HI); auto.
+      * apply (I_head _ _ _ _ HI).
+      * apply hb_walk_none in Ew. destruct Ew as [<-|H]; auto. apply (I_cur _ _ _ _ HI).
+      * apply (I_bnd _ _ _ _ HI).
+      * apply (I_nz _ _ _ _ HI).
+      * apply (I_bits _ _ _ _ HI).
+Qed.
+
+(** * mzd_t_free *)
+Lemma b2n_le b : (b2n b <= 1)%nat.
+Proof. destruct b; cbn; lia. Qed.
+
+Lemma mzd_t_free_inv p s held hx hd s' ev :
+  Inv p s (hdr_ids hd ++ held) (hd :: hx) -> mzd_t_free p s hd = (s', ev) ->
+  Inv p s' held hx /\ evs_ok s ev s' /\ hrel s s' /\
+  st_mmc s' = st_mmc s /\ st_j s' = st_j s /\ st_mats s' = st_mats s.
+Proof.
+  intros HI E. destruct hd as [c e|i]; cbn [mzd_t_free hdr_ids app] in *.
+  2:{ apply Inv_hx_malloc in HI.
+      destruct (sys_free_inv _ _ _ _ _ _ _ HI E) as (A & B & C & D1 & D2 & D3 & D4 & D5 & _). auto 10. }
+  set (u := hb_used (st_hb s) c) in *. set (u' := clearbit u e) in *.
+  pose proof (Inv_hb_nodup _ _ _ _ HI) as Hnd.
+  (* the slot is marked used, hence its block is linked *)
+  assert (Hbit : N.testbit u e = true).
+  { pose proof (I_bits _ _ _ _ HI c e) as H. rewrite hcnt_cons in H. fold u in H.
+    destruct (hslot_dec (HSlot c e) (HSlot c e)); [|congruence]. destruct (N.testbit u e); auto. cbn in H. lia. }
+  assert (Hin : In c (hkeys (st_hb s))).
+  { destruct (in_dec (fun a b => reflect_dec _ _ (oeqb_spec a b)) c (hkeys (st_hb s))) as [|n]; auto.
+    unfold u in Hbit. rewrite hb_used_notin, N.bits_0 in Hbit by auto. discriminate. }
+  assert (Hbu : bounded u).
+  { pose proof (I_bnd _ _ _ _ HI) as H. rewrite Forall_forall in H. apply (H (c, u)). apply hb_used_In; auto. }
+  (* the counts once slot (c, e) is released *)
+  assert (Hbits : forall c' e', (hcnt (live_hdrs s) (HSlot c' e') + hcnt hx (HSlot c' e'))%nat
+                   = b2n (N.testbit (if oeqb c c' then u' else hb_used (st_hb s) c') e')).
+  { intros c' e'. pose proof (I_bits _ _ _ _ HI c' e') as Hold. rewrite hcnt_cons in Hold.
+    destruct (oeqb_spec c c') as [<-|Hcc].
+    - fold u in Hold. unfold u'. rewrite clearbit_spec. destruct (N.eqb_spec e e') as [<-|Hee].
+      + destruct (hslot_dec (HSlot c e) (HSlot c e)); [|congruence]. rewrite andb_false_r.
+        pose proof (b2n_le (N.testbit u e)). cbn. lia.
+      + destruct (hslot_dec (HSlot c e) (HSlot c e')); [congruence|]. rewrite andb_true_r. exact Hold.
+    - destruct (hslot_dec (HSlot c e) (HSlot c' e')); [congruence|]. exact Hold. }
+  (* case: the block stays linked *)
+  assert (Hstay : forall cur', In cur' (hkeys (st_hb s)) -> (c <> None -> u' <> 0) ->
+            Inv p (set_hb s (hb_set (st_hb s) c u') cur') held hx).
+  { intros cur' Hcur Hnz.
+    apply (Inv_set_hb p s held (HSlot c e :: hx) _ _ held hx HI).
+    - intros x. rewrite hb_ids_set. reflexivity.
+    - destruct (I_head _ _ _ _ HI) as (u0 & rest & E0 & Hr). rewrite E0. cbn [hb_set].
+      destruct (oeqb_spec None c) as [<-|Hc]; eexists _, _; (split; [reflexivity|]); auto.
+      apply Forall_hb_set; auto.
+    - rewrite hkeys_set. auto.
+    - apply Forall_hb_set; [apply (I_bnd _ _ _ _ HI)|]. apply bounded_clearbit; auto.
+    - apply Forall_hb_set; [apply (I_nz _ _ _ _ HI)|]. exact Hnz.
+    - intros c' e'. rewrite Hbits. destruct (oeqb_spec c c') as [<-|Hcc].
+      + rewrite hb_used_set_same by auto. reflexivity.
+      + rewrite hb_used_set_other by auto. reflexivity. }
+  assert (Hframe : forall hb' cur', evs_ok s [] (set_hb s hb' cur') /\ hrel s (set_hb s hb' cur')).
+  { intros. apply same_but_hb_frame. repeat split. }
+  destruct (N.eqb_spec u' 0) as [Hz|Hnz].
+  2:{ injection E as <- <-. destruct (Hframe (hb_set (st_hb s) c u') (st_cur s)) as [F1 F2].
+      split; [apply Hstay; auto; apply (I_cur _ _ _ _ HI)|]. auto 10. }
+  destruct c as [i|].
+  2:{ injection E as <- <-. destruct (Hframe (hb_set (st_hb s) None u') None) as [F1 F2].
+      split; [apply Hstay; [|congruence]|auto 10].
+      destruct (I_head _ _ _ _ HI) as (u0 & rest & E0 & _). rewrite E0. left. reflexivity. }
+  (* the emptied non-first block is unlinked and returned to the system *)
+  rewrite hb_remove_set in E.
+  set (cur' := if oeqb (Some i) (st_cur s) then hb_prev (hb_set (st_hb s) (Some i) u') (Some i) None else st_cur s) in *.
+  assert (HIa : Inv p (set_hb s (hb_remove (st_hb s) (Some i)) cur') (i :: held) hx).
+  { destruct (I_head _ _ _ _ HI) as (u0 & rest & E0 & Hr).
+    assert (Hhead : exists rest', hb_remove (st_hb s) (Some i) = (None, u0) :: rest' /\
+                                  Forall (fun b => fst b <> None) rest').
+    { rewrite E0. cbn [hb_remove oeqb]. eexists. split; [reflexivity|]. apply Forall_hb_remove; auto. }
+    apply (Inv_set_hb p s held (HSlot (Some i) e :: hx) _ _ (i :: held) hx HI).
+    - intros x. pose proof (hb_ids_remove _ _ x Hin). rewrite cnt_cons. lia.
+    - destruct Hhead as (rest' & H1 & H2). eauto.
+    - unfold cur'. destruct (oeqb_spec (Some i) (st_cur s)) as [Hc|Hc].
+      + pose proof (hb_prev_In (hb_set (st_hb s) (Some i) u') (Some i) None) as H.
+        rewrite hb_remove_set in H. destruct H as [<-|H]; auto.
+        destruct Hhead as (rest' & H1 & _). rewrite H1. left. reflexivity.
+      + apply hkeys_remove_other; auto. apply (I_cur _ _ _ _ HI).
+    - apply Forall_hb_remove. apply (I_bnd _ _ _ _ HI).
+    - apply Forall_hb_remove. apply (I_nz _ _ _ _ HI).
+    - intros c' e'. rewrite Hbits. destruct (oeqb_spec (Some i) c') as [<-|Hcc].
+      + rewrite hb_used_notin by (apply hkeys_remove_notin; auto). rewrite Hz. reflexivity.
+      + rewrite hb_used_remove_other by auto. reflexivity. }
+  destruct (sys_free_inv _ _ _ _ _ _ _ HIa E) as (A & B & C & D1 & D2 & D3 & D4 & D5 & _).
+  split; [exact A|]. split; [eapply evs_ok_tst; [|exact B]; reflexivity|].
+  split; [eapply hrel_eq; [| |exact C]; reflexivity|]. auto.
+Qed.
+
+(** * Matrices: memset / user writes, creation and death of a handle *)
+Definition mat_ok (hp : heap) (m : mat) : Prop :=
+  m_win m = false ->
+  match m_data m with
+  | Some (i, off) => off = 0 /\ m_rows m * m_rowstride m * 8 <> 0 /\
+                     (m_live m = true -> exists b, heap_find hp i = Some b /\
+                                          b_size b = m_rows m * m_rowstride m * 8)
+  | None => m_rows m * m_rowstride m * 8 = 0
+  end.
+
+Lemma find_fill_size h d v k b :
+  heap_find h k = Some b -> exists b', heap_find (heap_fill h d v) k = Some b' /\ b_size b' = b_size b.
+Proof.
+  intros H. destruct (N.eq_dec k d) as [->|Hne].
+  - rewrite (find_fill_same _ _ v _ H). eexists. split; reflexivity.
+  - rewrite find_fill_other by auto. eauto.
+Qed.
+
+Lemma Inv_fill p s held hx d v :
+  Inv p s held hx -> Inv p (set_heap s (heap_fill (st_heap s) d v)) held hx.
+Proof.
+  intros HI. destruct HI as [Iown Inodup Ibound Imlen Ij Islot Ihead Icur Ibnd Inz Ibits Imat].
+  unfold set_heap. constructor; sp; auto; try (rewrite keys_fill; auto).
+  - intros sl Hin Hsz. destruct (Islot sl Hin Hsz) as (i & b & H1 & H2 & H3).
+    destruct (find_fill_size _ d v _ _ H2) as (b' & H4 & H5). exists i, b'. split; [|split]; congruence.
+  - intros m Hin Hw. specialize (Imat m Hin Hw). destruct (m_data m) as [[i off]|]; auto.
+    destruct Imat as (H1 & H2 & H3). split; [|split]; auto. intros Hl. destruct (H3 Hl) as (b & H4 & H5).
+    destruct (find_fill_size _ d v _ _ H4) as (b' & H6 & H7). exists b'. split; congruence.
+Qed.
+
+Lemma Inv_push p s held hx m :
+  Inv p s (mat_ids m ++ held) (live_hdr m ++ hx) -> mat_ok (st_heap s) m ->
+  Inv p (push_mat s m) held hx.
+Proof.
+  intros HI Hm. destruct HI as [Iown Inodup Ibound Imlen Ij Islot Ihead Icur Ibnd Inz Ibits Imat].
+  unfold push_mat, set_mats. constructor; sp; auto.
+  - intros x. rewrite Iown, !owned_cnt. sp. rewrite cnt_flat_map_app. cbn [flat_map].
+    rewrite app_nil_r, count_occ_app. lia.
+  - intros c e. rewrite <- Ibits. unfold live_hdrs. sp.
+    rewrite (cnt_flat_map_app _ _ hslot_dec live_hdr). cbn [flat_map]. rewrite app_nil_r, count_occ_app. lia.
+  - intros m' Hin. apply in_app_or in Hin. destruct Hin as [Hin|[<-|[]]]; auto. apply Imat; auto.
+Qed.
+
+Lemma mat_ids_kill A : mat_ids (kill A) = [].
+Proof. reflexivity. Qed.
+
+Lemma Inv_kill p s held hx h A :
+  Inv p s held hx -> nth_error (st_mats s) h = Some A ->
+  Inv p (set_mats s (upd (st_mats s) h (kill A))) (mat_ids A ++ held) (live_hdr A ++ hx).
+Proof.
+  intros HI Hn. destruct HI as [Iown Inodup Ibound Imlen Ij Islot Ihead Icur Ibnd Inz Ibits Imat].
+  unfold set_mats. constructor; sp; auto.
+  - intros x. rewrite Iown, !owned_cnt. sp.
+    pose proof (cnt_flat_map_upd _ _ N.eq_dec mat_ids _ _ _ (kill A) x Hn) as H. rewrite mat_ids_kill in H.
+    cbn [count_occ] in H. rewrite count_occ_app. lia.
+  - intros c e. rewrite <- Ibits. unfold live_hdrs. sp.
+    pose proof (cnt_flat_map_upd _ _ hslot_dec live_hdr _ _ _ (kill A) (HSlot c e) Hn) as H.
+    change (live_hdr (kill A)) with (@nil hslot) in H. cbn [count_occ] in H. rewrite count_occ_app. lia.
+  - intros m Hin Hw. apply upd_In in Hin. destruct Hin as [->|Hin]; [|apply Imat; auto].
+    assert (HA : In A (st_mats s)) by (eapply nth_error_In; eauto).
+    specialize (Imat A HA Hw). cbn [kill m_data m_rows m_rowstride m_live].
+    destruct (m_data A) as [[i off]|]; auto. destruct Imat as (H1 & H2 & _). split; [|split]; auto. discriminate.
+Qed.
+
+Lemma evs_ok_ret s e :
+  match e with SysAlloc _ _ | SysFree _ => False | _ => True end -> evs_ok s [e] s.
+Proof. unfold evs_ok, tst. destruct e; cbn; tauto. Qed.
+
+Lemma evs_ok_same s ev s1 s2 : evs_ok s ev s1 -> tst s1 = tst s2 -> evs_ok s ev s2.
+Proof. unfold evs_ok. congruence. Qed.
+
+Lemma rowstride_of_nz c : c <> 0 -> rowstride_of c <> 0.
+Proof.
+  intros H. unfold rowstride_of, width_of.
+  assert (1 <= (c + 63) / 64) by (apply N.div_le_lower_bound; lia).
+  destruct (N.even ((c + 63) / 64)); lia.
+Qed.
+
+Lemma mmc_malloc_off p s sz : enable_mmc p = false -> mmc_malloc p s sz = sys_alloc s sz.
+Proof. unfold mmc_malloc. intros ->. reflexivity. Qed.
+
+Lemma mmc_free_off p s d sz : enable_mmc p = false -> mmc_free p s d sz = sys_free s d.
+Proof. unfold mmc_free. intros ->. reflexivity. Qed.
+
+Lemma sys_free_mmc s d : st_mmc (fst (sys_free s d)) = st_mmc s.
+Proof. destruct d; reflexivity. Qed.
+
+(** ** mzd_init *)
+Lemma mzd_init_inv p s r c s' ev :
+  Inv p s [] [] -> mzd_init p s r c = (s', ev) ->
+  Inv p s' [] [] /\ evs_ok s ev s' /\ (enable_mmc p = false -> st_mmc s' = st_mmc s) /\
+  exists m ev0,
+    st_mats s' = st_mats s ++ [m] /\ m_live m = true /\ m_win m = false /\ m_root m = length (st_mats s) /\
+    m_rows m = r /\ m_cols m = c /\ m_rowstride m = rowstride_of c /\
+    ev = ev0 ++ [RetInit (length (st_mats s)) r c (rowstride_of c) (option_map fst (m_data m)) (m_hdr m) true] /\
+    match m_data m with
+    | Some (d, off) => r <> 0 /\ c <> 0 /\ off = 0 /\
+                       heap_find (st_heap s') d = Some (mkBlk (r * rowstride_of c * 8) 0)
+    | None => r = 0 \/ c = 0
+    end.
+Proof.
+  intros HI E. unfold mzd_init in E.
+  destruct (mzd_t_malloc p s) as [[s1 hd] ev1] eqn:E1.
+  destruct (mzd_t_malloc_inv _ _ _ _ _ _ _ HI E1) as (HI1 & B1 & C1 & M1 & J1 & A1).
+  destruct (N.eqb_spec r 0) as [Hr|Hr]; [|destruct (N.eqb_spec c 0) as [Hc|Hc]]; cbn [negb andb] in E.
+  3:{ (* a data block *)
+    set (rs := rowstride_of c) in *. set (sz := r * rs * 8) in *.
+    assert (Hsz : sz <> 0) by (pose proof (rowstride_of_nz c Hc); unfold sz, rs; lia).
+    destruct (mmc_malloc p s1 sz) as [[s2 d] ev2] eqn:E2.
+    destruct (mmc_malloc_inv _ _ _ _ _ _ _ _ HI1 Hsz E2) as (HI2 & B2 & C2 & D1 & D2 & A2 & (b & Hb1 & Hb2)).
+    set (s3 := set_heap s2 (heap_fill (st_heap s2) d 0)) in *.
+    assert (HI3 : Inv p s3 (d :: hdr_ids hd ++ []) [hd]) by (apply Inv_fill; exact HI2).
+    assert (Hf : heap_find (st_heap s3) d = Some (mkBlk sz 0)).
+    { unfold s3, set_heap. sp. rewrite (find_fill_same _ _ 0 _ Hb1). congruence. }
+    assert (Hz : (fill_of s3 (Some d) =? 0) = true).
+    { unfold fill_of. rewrite Hf. reflexivity. }
+    rewrite Hz in E. injection E as <- <-.
+    set (m := mkMat r c rs (Some (d, 0)) hd false true (length (st_mats s))).
+    split; [|split; [|split]].
+    - apply Inv_push; [exact HI3|]. intros _. cbn. split; [reflexivity|]. split; [exact Hsz|].
+      intros _. exists (mkBlk sz 0). split; [exact Hf|reflexivity].
+    - eapply evs_ok_app; [exact B1|]. apply (evs_ok_app _ _ s3); [eapply evs_ok_same; [exact B2|]|].
+      + unfold tst, s3, set_heap. sp. rewrite keys_fill. reflexivity.
+      + eapply evs_ok_same; [apply evs_ok_ret; exact I|]. reflexivity.
+    - intros Hoff. unfold push_mat, set_mats, s3, set_heap. sp.
+      rewrite mmc_malloc_off in E2 by auto. unfold sys_alloc in E2. injection E2 as <- _ _. sp. exact M1.
+    - exists m, (ev1 ++ ev2). unfold push_mat, set_mats. sp. unfold s3, set_heap at 1. sp. rewrite A2, A1.
+      repeat (split; [reflexivity|]). split; [rewrite <- app_assoc; reflexivity|].
+      cbn. repeat (split; [assumption || reflexivity|]). exact Hf. }
+  all: injection E as <- <-;
+    set (m := mkMat r c (rowstride_of c) None hd false true (length (st_mats s)));
+    (split; [|split; [|split]]);
+    [ apply Inv_push; [exact HI1|]; intros _; cbn; subst; cbn; try reflexivity; lia
+    | eapply evs_ok_app; [exact B1|]; eapply evs_ok_same; [apply evs_ok_ret; exact I|]; reflexivity
+    | intros _; exact M1
+    | exists m, ev1; unfold push_mat, set_mats; sp; rewrite A1;
+      repeat (split; [reflexivity|]); cbn; auto ].
+Qed.
+
+Lemma hrel_eq_r s s1 s' :
+  hrel s s1 -> st_next s' = st_next s1 -> st_heap s' = st_heap s1 -> hrel s s'.
+Proof. intros [A B C] H1 H2. split; rewrite ?H1, ?H2; auto. Qed.
+
+(** ** mzd_init_window *)
+Lemma mzd_init_window_inv p s h r0 c0 r1 c1 s' ev :
+  Inv p s [] [] -> mzd_init_window p s h r0 c0 r1 c1 = (s', ev) ->
+  Inv p s' [] [] /\ evs_ok s ev s' /\ hrel s s' /\ st_mmc s' = st_mmc s /\
+  exists hd, let M := nth h (st_mats s) dummy_mat in
+    st_mats s' = st_mats s ++
+      [mkMat (N.min (r1 - r0) (m_rows M - r0)) (c1 - c0) (m_rowstride M)
+             (match m_data M with Some (b, off) => Some (b, off + r0 * m_rowstride M + c0 / 64) | None => None end)
+             hd true true (m_root M)].
+Proof.
+  intros HI E. unfold mzd_init_window in E.
+  destruct (mzd_t_malloc p s) as [[s1 hd] ev1] eqn:E1.
+  destruct (mzd_t_malloc_inv _ _ _ _ _ _ _ HI E1) as (HI1 & B1 & C1 & M1 & J1 & A1).
+  injection E as <- <-. split; [|split; [|split; [|split]]].
+  - apply Inv_push; [exact HI1|]. intros Hw. discriminate Hw.
+  - eapply evs_ok_app; [exact B1|]. eapply evs_ok_same; [apply evs_ok_ret; exact I|]. reflexivity.
+  - eapply hrel_eq_r; [exact C1| |]; reflexivity.
+  - exact M1.
+  - exists hd. unfold push_mat, set_mats. sp. rewrite A1. reflexivity.
+Qed.
+
+(** ** mzd_free *)
+Lemma mzd_free_inv p s h A s' ev :
+  Inv p s [] [] -> nth_error (st_mats s) h = Some A -> m_live A = true ->
+  mzd_free p s h = (s', ev) ->
+  Inv p s' [] [] /\ evs_ok s ev s' /\ hrel s s' /\ st_mats s' = upd (st_mats s) h (kill A) /\
+  (enable_mmc p = false -> st_mmc s' = st_mmc s).
+Proof.
+  intros HI Hn Hl E. unfold mzd_free in E. rewrite (nth_error_nth _ _ dummy_mat Hn) in E.
+  set (s0 := set_mats s (upd (st_mats s) h (kill A))) in *.
+  pose proof (Inv_kill _ _ _ _ _ _ HI Hn) as HI0. fold s0 in HI0.
+  unfold mat_ids, live_hdr in HI0. rewrite Hl in HI0.
+  assert (HA : In A (st_mats s)) by (eapply nth_error_In; eauto).
+  assert (Hstep1 : exists s1 ev1,
+            (if m_win A then (s0, []) else mmc_free p s0 (option_map fst (m_data A)) (m_rows A * m_rowstride A * 8))
+            = (s1, ev1) /\
+            Inv p s1 (hdr_ids (m_hdr A) ++ []) (m_hdr A :: []) /\ evs_ok s0 ev1 s1 /\ hrel s0 s1 /\
+            st_mats s1 = st_mats s0 /\ (enable_mmc p = false -> st_mmc s1 = st_mmc s0)).
+  { unfold data_ids in HI0. destruct (m_win A) eqn:Hw.
+    - exists s0, []. split; [reflexivity|]. split; [exact HI0|].
+      split; [apply evs_ok_nil; reflexivity|]. split; [apply hrel_refl; reflexivity|]. auto.
+    - destruct (mmc_free p s0 (option_map fst (m_data A)) (m_rows A * m_rowstride A * 8)) as [s1 ev1] eqn:Ef.
+      exists s1, ev1. split; [reflexivity|].
+      assert (Hd : match option_map fst (m_data A) with
+                   | Some k => m_rows A * m_rowstride A * 8 <> 0 /\
+                               exists b, heap_find (st_heap s0) k = Some b /\ b_size b = m_rows A * m_rowstride A * 8
+                   | None => m_rows A * m_rowstride A * 8 = 0
+                   end).
+      { pose proof (I_mat _ _ _ _ HI A HA Hw) as H. destruct (m_data A) as [[k off]|]; cbn; auto.
+        destruct H as (_ & H2 & H3). split; auto. }
+      rewrite <- app_assoc in HI0.
+      destruct (mmc_free_inv _ _ _ _ _ _ _ _ HI0 Hd Ef) as (A1 & B1 & C1 & D1 & D2 & D3).
+      split; [exact A1|]. split; [exact B1|]. split; [exact C1|]. split; [exact D3|].
+      intros Hoff. rewrite mmc_free_off in Ef by auto.
+      pose proof (sys_free_mmc s0 (option_map fst (m_data A))) as H. rewrite Ef in H. exact H. }
+  destruct Hstep1 as (s1 & ev1 & E1 & HI1 & B1 & C1 & A1 & M1). rewrite E1 in E.
+  destruct (mzd_t_free p s1 (m_hdr A)) as [s2 ev2] eqn:E2. injection E as <- <-.
+  destruct (mzd_t_free_inv _ _ _ _ _ _ _ HI1 E2) as (HI2 & B2 & C2 & M2 & J2 & A2).
+  split; [exact HI2|]. split; [|split; [|split]].
+  - apply (evs_ok_tst s s0); [reflexivity|]. eapply evs_ok_app; [exact B1|].
+    eapply evs_ok_app; [exact B2|]. apply evs_ok_ret. exact I.
+  - apply (hrel_eq s s0); [reflexivity|reflexivity|].
+    eapply hrel_trans; [|exact C1|exact C2]. apply (I_bound _ _ _ _ HI0).
+  - rewrite A2, A1. reflexivity.
+  - intros Hoff. rewrite M2, (M1 Hoff). reflexivity.
+Qed.
+
+(** ** user writes and m4ri_fini *)
+Lemma do_write_inv p s h v s' ev :
+  Inv p s [] [] -> do_write s h v = (s', ev) ->
+  Inv p s' [] [] /\ evs_ok s ev s' /\ st_mats s' = st_mats s /\ st_mmc s' = st_mmc s.
+Proof.
+  intros HI E. unfold do_write in E. destruct (m_data (nth h (st_mats s) dummy_mat)) as [[b off]|]; injection E as <- <-.
+  - split; [apply Inv_fill; exact HI|]. split; [|split; reflexivity].
+    eapply evs_ok_same; [apply evs_ok_ret; exact I|]. unfold tst, set_heap. sp. rewrite keys_fill. reflexivity.
+  - split; [exact HI|]. split; [apply evs_ok_ret; exact I|]. split; reflexivity.
+Qed.
+
+Lemma fini_inv p s s' ev :
+  Inv p s [] [] -> (let '(s1, ev) := mmc_cleanup p s in (s1, ev ++ [RetFini])) = (s', ev) ->
+  Inv p s' [] [] /\ evs_ok s ev s' /\ hrel s s' /\ st_mats s' = st_mats s /\ st_hb s' = st_hb s /\
+  (enable_mmc p = false -> st_mmc s' = st_mmc s) /\
+  (enable_mmc p = true -> forall x, cnt (flat_map slot_ids (st_mmc s')) x = 0%nat).
+Proof.
+  intros HI E. destruct (mmc_cleanup p s) as [s1 ev1] eqn:E1. injection E as <- <-.
+  destruct (mmc_cleanup_inv _ _ _ _ _ _ HI E1) as (A & B & C & D1 & D2 & D3 & D4).
+  split; [exact A|]. split; [eapply evs_ok_app; [exact B|apply evs_ok_ret; exact I]|].
+  split; [exact C|]. split; [exact D3|]. split; [exact D1|]. split; [|exact D4].
+  intros Hoff. unfold mmc_cleanup in E1. rewrite Hoff in E1. injection E1 as <- _. reflexivity.
+Qed.
+
+(** * Histories *)
+Lemma run_snoc p ops o :
+  run p (ops ++ [o]) = let '(s, tr) := run p ops in let '(s', ev) := step p s o in (s', tr ++ ev).
+Proof. unfold run, run_from. rewrite fold_left_app. reflexivity. Qed.
+
+Lemma track_snoc ops o : track (ops ++ [o]) = op_track (track ops) o.
+Proof. unfold track. rewrite fold_left_app. reflexivity. Qed.
+
+Lemma wf_from_snoc hs ops o :
+  wf_from hs (ops ++ [o]) = wf_from hs ops && op_ok (fold_left op_track ops hs) o.
+Proof.
+  revert hs; induction ops as [|a t IH]; intros hs; cbn.
+  - rewrite andb_true_r. reflexivity.
+  - rewrite IH, andb_assoc. reflexivity.
+Qed.
+
+Lemma wf_ops_snoc ops o : wf_ops (ops ++ [o]) = wf_ops ops && op_ok (track ops) o.
+Proof. apply wf_from_snoc. Qed.
+
+Definition mat_info (m : mat) : bool * nat := (m_live m, m_root m).
+
+(* the part of a matrix record that mzd_free leaves alone *)
+Definition root_ok (ms : list mat) (h : nat) (m : mat) : Prop :=
+  (m_win m = false -> m_root m = h) /\
+  exists r, nth_error ms (m_root m) = Some r /\ m_win r = false /\
+            option_map fst (m_data m) = option_map fst (m_data r).
+
+Record HInv (p : params) (ops : list op) (s : state) (tr : list event) : Prop := mkHInv {
+  H_inv : Inv p s [] [];
+  H_tr : tcheck (0, []) tr = Some (tst s);
+  H_track : map mat_info (st_mats s) = track ops;
+  H_mmc : enable_mmc p = false -> forall sl, In sl (st_mmc s) -> s_size sl = 0;
+  H_root : forall h m, nth_error (st_mats s) h = Some m -> root_ok (st_mats s) h m
+}.
+
+Lemma Inv_init p : params_ok p -> Inv p (init_state p) [] [].
+Proof.
+  intros Hp. unfold init_state. constructor; sp.
+  - intros x. rewrite owned_cnt. sp. cbn [flat_map count_occ app].
+    rewrite cnt_flat_map_zero; [reflexivity|]. intros a Ha. apply repeat_spec in Ha. subst a. reflexivity.
+  - intros x. cbn. lia.
+  - intros x [].
+  - apply repeat_length.
+  - exact Hp.
+  - intros sl Hin Hsz. apply repeat_spec in Hin. subst sl. cbn in Hsz. congruence.
+  - exists 0, []. split; [reflexivity|constructor].
+  - left. reflexivity.
+  - constructor; [apply bounded_0|constructor].
+  - constructor; [cbn; congruence|constructor].
+  - intros c e. unfold live_hdrs. sp. cbn [flat_map count_occ hb_used].
+    destruct (oeqb None c); rewrite N.bits_0; reflexivity.
+  - intros m [].
+Qed.
+
+Lemma HInv_init p : params_ok p -> HInv p [] (init_state p) [].
+Proof.
+  intros Hp. constructor.
+  - apply Inv_init; auto.
+  - reflexivity.
+  - reflexivity.
+  - intros _ sl Hin. apply repeat_spec in Hin. subst sl. reflexivity.
+  - intros [|h] m H; discriminate H.
+Qed.
+
+Lemma h_live_nth ops s h :
+  map mat_info (st_mats s) = track ops -> h_live (track ops) h = true ->
+  exists A, nth_error (st_mats s) h = Some A /\ m_live A = true /\ h_root (track ops) h = m_root A /\
+            nth h (st_mats s) dummy_mat = A.
+Proof.
+  intros Ht Hl. unfold h_live, h_root in *. rewrite <- Ht in *. rewrite nth_error_map in *.
+  destruct (nth_error (st_mats s) h) as [A|] eqn:E; cbn in *; [|discriminate].
+  exists A. split; auto. destruct (m_live A); [|discriminate]. repeat split; auto.
+  apply nth_error_nth; auto.
+Qed.
+
+Lemma map_upd A B (f : A -> B) l i v : map f (upd l i v) = upd (map f l) i (f v).
+Proof. revert i; induction l as [|a l IH]; intros [|i]; cbn; auto. rewrite IH. reflexivity. Qed.
+
+Lemma upd_kill_nth l h A k :
+  nth_error l h = Some A ->
+  nth_error (upd l h (kill A)) k = option_map (fun m => if Nat.eqb k h then kill m else m) (nth_error l k).
+Proof.
+  intros H. destruct (Nat.eq_dec k h) as [->|Hne].
+  - rewrite upd_nth_same by (apply nth_error_Some; congruence). rewrite H. cbn. rewrite Nat.eqb_refl. reflexivity.
+  - rewrite upd_nth_other by auto. destruct (nth_error l k); cbn; auto.
+    apply Nat.eqb_neq in Hne. rewrite Hne. reflexivity.
+Qed.
+
+Lemma root_ok_kill l h A :
+  nth_error l h = Some A -> (forall k m, nth_error l k = Some m -> root_ok l k m) ->
+  forall k m, nth_error (upd l h (kill A)) k = Some m -> root_ok (upd l h (kill A)) k m.
+Proof.
+  intros Hn Hall k m Hk. rewrite (upd_kill_nth _ _ _ _ Hn) in Hk.
+  destruct (nth_error l k) as [m0|] eqn:E0; [|discriminate]. cbn in Hk.
+  destruct (Hall k m0 E0) as (R1 & r & R2 & R3 & R4).
+  assert (Hm : m_win m = m_win m0 /\ m_root m = m_root m0 /\ m_data m = m_data m0).
+  { destruct (Nat.eqb k h); injection Hk as <-; auto. }
+  destruct Hm as (W & R & D). unfold root_ok. rewrite W, R, D. split; auto.
+  rewrite (upd_kill_nth _ _ _ _ Hn), R2. cbn.
+  eexists. split; [reflexivity|]. destruct (Nat.eqb (m_root m0) h); auto.
+Qed.
+
+Lemma root_ok_snoc l a :
+  (forall k m, nth_error l k = Some m -> root_ok l k m) -> root_ok (l ++ [a]) (length l) a ->
+  forall k m, nth_error (l ++ [a]) k = Some m -> root_ok (l ++ [a]) k m.
+Proof.
+  intros Hall Ha k m Hk. apply nth_error_snoc in Hk. destruct Hk as [Hk|[-> ->]]; auto.
+  destruct (Hall k m Hk) as (R1 & r & R2 & R3 & R4). split; auto.
+  exists r. split; auto. rewrite nth_error_app1; auto. apply nth_error_Some. congruence.
+Qed.
+
+Lemma nth_error_snoc_last A (l : list A) a : nth_error (l ++ [a]) (length l) = Some a.
+Proof. rewrite nth_error_app2, Nat.sub_diag by lia. reflexivity. Qed.
+
+Lemma step_HInv p ops s tr o s' ev :
+  HInv p ops s tr -> op_ok (track ops) o = true -> step p s o = (s', ev) ->
+  HInv p (ops ++ [o]) s' (tr ++ ev).
+Proof.
+  intros [HI Htr Htk Hmmc Hroot] Hok E.
+  assert (Hlen : length (track ops) = length (st_mats s)) by (rewrite <- Htk; apply map_length).
+  assert (Hgoal : Inv p s' [] [] /\ evs_ok s ev s' /\ (enable_mmc p = false -> st_mmc s' = st_mmc s) /\
+                  map mat_info (st_mats s') = op_track (track ops) o /\
+                  (forall h m, nth_error (st_mats s') h = Some m -> root_ok (st_mats s') h m)).
+  { destruct o as [r c|h r0 c0 r1 c1|h|h v|]; cbn [step op_ok op_track] in *.
+    - destruct (mzd_init_inv _ _ _ _ _ _ HI E) as (A & B & C & m & ev0 & D1 & D2 & D3 & D4 & _).
+      split; [exact A|]. split; [exact B|]. split; [exact C|]. rewrite D1. split.
+      + rewrite map_app, Htk. cbn. unfold mat_info. rewrite D2, D4, Hlen. reflexivity.
+      + apply root_ok_snoc; auto. split; auto. rewrite D4. exists m. split; [apply nth_error_snoc_last|]. auto.
+    - destruct (mzd_init_window_inv _ _ _ _ _ _ _ _ _ HI E) as (A & B & _ & C & hd & D).
+      destruct (h_live_nth _ _ _ Htk Hok) as (M & Hn & _ & Hr & HM). cbn zeta in D. rewrite HM in D.
+      split; [exact A|]. split; [exact B|]. split; [auto|]. rewrite D. split.
+      + rewrite map_app, Htk. cbn. unfold mat_info. cbn. rewrite Hr. reflexivity.
+      + apply root_ok_snoc; auto. split; [discriminate|]. cbn [m_root m_win m_data].
+        destruct (Hroot _ _ Hn) as (_ & r & R2 & R3 & R4). exists r. split; [|split; auto].
+        * rewrite nth_error_app1; auto. apply nth_error_Some. congruence.
+        * rewrite <- R4. destruct (m_data M) as [[b off]|]; reflexivity.
+    - destruct (h_live_nth _ _ _ Htk Hok) as (M & Hn & Hl & Hr & HM).
+      destruct (mzd_free_inv _ _ _ _ _ _ HI Hn Hl E) as (A & B & _ & C & D).
+      split; [exact A|]. split; [exact B|]. split; [exact D|]. rewrite C. split.
+      + rewrite map_upd, Htk, Hr. reflexivity.
+      + apply root_ok_kill; auto.
+    - destruct (do_write_inv _ _ _ _ _ _ HI E) as (A & B & C & D).
+      split; [exact A|]. split; [exact B|]. split; [auto|]. rewrite C. auto.
+    - destruct (fini_inv _ _ _ _ HI E) as (A & B & _ & C & _ & D & _).
+      split; [exact A|]. split; [exact B|]. split; [exact D|]. rewrite C. auto. }
+  destruct Hgoal as (A & B & C & D & F). constructor; auto.
+  - rewrite tcheck_app, Htr. exact B.
+  - rewrite track_snoc. exact D.
+  - intros Hoff. rewrite (C Hoff). auto.
+Qed.
+
+Theorem run_HInv p ops :
+  params_ok p -> wf_ops ops = true -> HInv p ops (fst (run p ops)) (snd (run p ops)).
+Proof.
+  intros Hp. induction ops as [|o ops IH] using rev_ind; intros Hwf.
+  - apply HInv_init; auto.
+  - rewrite wf_ops_snoc in Hwf. apply andb_prop in Hwf. destruct Hwf as [Hwf Hok].
+    rewrite run_snoc. specialize (IH Hwf). destruct (run p ops) as [s tr]. cbn [fst snd] in IH.
+    destruct (step p s o) as [s' ev] eqn:E. cbn [fst snd]. eapply step_HInv; eauto.
+Qed.
+
+(** * The C14 theorems *)
+Definition data_id (m : mat) : option N := option_map fst (m_data m).
+
+(** ** 1. the invariant holds after every well-formed history; 5. the trace is that of a sane client
+       of the system allocator *)
+Theorem alloc_inv p ops : params_ok p -> wf_ops ops = true -> Inv p (fst (run p ops)) [] [].
+Proof. intros Hp Hwf. apply (H_inv _ _ _ _ (run_HInv p ops Hp Hwf)). Qed.
+
+Theorem trace_ok p ops :
+  params_ok p -> wf_ops ops = true ->
+  tcheck (0, []) (snd (run p ops)) = Some (st_next (fst (run p ops)), keys (st_heap (fst (run p ops)))).
+Proof. intros Hp Hwf. apply (H_tr _ _ _ _ (run_HInv p ops Hp Hwf)). Qed.
+
+(* what acceptance by [tcheck] means for a single free *)
+Lemma tcheck_free st a i b st' :
+  tcheck st (a ++ SysFree i :: b) = Some st' -> exists st1, tcheck st a = Some st1 /\ In i (snd st1).
+Proof.
+  rewrite tcheck_app. destruct (tcheck st a) as [[nx live]|]; [|discriminate]. cbn [tcheck tstep].
+  destruct (existsb (N.eqb i) live) eqn:E; [|discriminate]. intros _. exists (nx, live). split; auto.
+  apply existsb_exists in E. destruct E as (x & H1 & H2). apply N.eqb_eq in H2. subst. exact H1.
+Qed.
+
+Lemma tcheck_alloc st a i sz b st' :
+  tcheck st (a ++ SysAlloc i sz :: b) = Some st' -> exists st1, tcheck st a = Some st1 /\ fst st1 <= i.
+Proof.
+  rewrite tcheck_app. destruct (tcheck st a) as [[nx live]|]; [|discriminate]. cbn [tcheck tstep].
+  destruct (N.leb_spec nx i); [|discriminate]. intros _. exists (nx, live). split; auto.
+Qed.
+
+Theorem no_double_free p ops a i b :
+  params_ok p -> wf_ops ops = true -> snd (run p ops) = a ++ SysFree i :: b ->
+  exists nx live, tcheck (0, []) a = Some (nx, live) /\ In i live.
+Proof.
+  intros Hp Hwf E. pose proof (trace_ok p ops Hp Hwf) as H. rewrite E in H.
+  destruct (tcheck_free _ _ _ _ _ H) as ([nx live] & H1 & H2). eauto.
+Qed.
+
+(** ** 2. a fresh matrix is all zero, whatever the cache handed back *)
+Theorem fresh_zero p ops r c :
+  params_ok p -> wf_ops ops = true ->
+  let s := fst (run p ops) in
+  let s' := fst (run p (ops ++ [Init r c])) in
+  exists m ev0,
+    st_mats s' = st_mats s ++ [m] /\ m_live m = true /\ m_win m = false /\ m_rows m = r /\ m_cols m = c /\
+    snd (run p (ops ++ [Init r c]))
+      = ev0 ++ [RetInit (length (st_mats s)) r c (rowstride_of c) (data_id m) (m_hdr m) true] /\
+    fill_of s' (data_id m) = 0 /\
+    match m_data m with
+    | Some (d, off) => r <> 0 /\ c <> 0 /\ off = 0 /\
+                       heap_find (st_heap s') d = Some (mkBlk (r * rowstride_of c * 8) 0)
+    | None => r = 0 \/ c = 0
+    end.
+Proof.
+  intros Hp Hwf. pose proof (H_inv _ _ _ _ (run_HInv p ops Hp Hwf)) as HI.
+  cbn zeta. rewrite run_snoc. destruct (run p ops) as [s tr]. cbn [fst snd] in *. cbn [step].
+  destruct (mzd_init p s r c) as [s' ev] eqn:E. cbn [fst snd].
+  destruct (mzd_init_inv _ _ _ _ _ _ HI E) as (_ & _ & _ & m & ev0 & D1 & D2 & D3 & D4 & D5 & D6 & D7 & D8 & D9).
+  exists m, (tr ++ ev0). repeat (split; [assumption|]). split; [rewrite D8, app_assoc; reflexivity|].
+  split; [|exact D9]. unfold fill_of, data_id. destruct (m_data m) as [[d off]|]; [|reflexivity].
+  destruct D9 as (_ & _ & _ & Hf). cbn. rewrite Hf. reflexivity.
+Qed.
+
+(** ** 3. live matrices are disjoint and sit in neither cache *)
+Section Two.
+  Variables (A B : Type) (dec : forall x y : B, {x = y} + {x <> y}).
+  Lemma cnt_flat_map_two (f : A -> list B) l i j a b x :
+    i <> j -> nth_error l i = Some a -> nth_error l j = Some b ->
+    (count_occ dec (f a) x + count_occ dec (f b) x <= count_occ dec (flat_map f l) x)%nat.
+  Proof.
+    revert i j. induction l as [|y l IH]; intros [|i] [|j] Hne Hi Hj; cbn in *; try discriminate; try congruence;
+      rewrite count_occ_app.
+    - injection Hi as ->. apply nth_error_In in Hj.
+      pose proof (cnt_flat_map_in _ _ dec f _ _ x Hj). lia.
+    - injection Hj as ->. apply nth_error_In in Hi.
+      pose proof (cnt_flat_map_in _ _ dec f _ _ x Hi). lia.
+    - assert (i <> j) by congruence. specialize (IH i j H Hi Hj). lia.
+  Qed.
+End Two.
+
+Lemma mat_ids_data m k : m_live m = true -> m_win m = false -> data_id m = Some k -> (1 <= cnt (mat_ids m) k)%nat.
+Proof.
+  intros Hl Hw Hd. unfold mat_ids, data_ids. unfold data_id in Hd. rewrite Hl, Hw, Hd, count_occ_app.
+  pose proof (cnt_self_pos k []). cbn [olist]. lia.
+Qed.
+
+Lemma mat_ids_hdr m k : m_live m = true -> m_hdr m = HMalloc k -> (1 <= cnt (mat_ids m) k)%nat.
+Proof.
+  intros Hl Hh. unfold mat_ids. rewrite Hl, Hh, count_occ_app. pose proof (cnt_self_pos k []). cbn [hdr_ids]. lia.
+Qed.
+
+Lemma mat_ids_both m k :
+  m_live m = true -> m_win m = false -> data_id m = Some k -> m_hdr m = HMalloc k -> (2 <= cnt (mat_ids m) k)%nat.
+Proof.
+  intros Hl Hw Hd Hh. unfold mat_ids, data_ids. unfold data_id in Hd. rewrite Hl, Hw, Hd, Hh, count_occ_app.
+  pose proof (cnt_self_pos k []). cbn [olist hdr_ids]. lia.
+Qed.
+
+Lemma Inv_mats_le p s x :
+  Inv p s [] [] ->
+  (cnt (flat_map mat_ids (st_mats s)) x + cnt (flat_map slot_ids (st_mmc s)) x
+   + cnt (flat_map hb_ids (st_hb s)) x <= 1)%nat.
+Proof. intros HI. pose proof (Inv_excl _ _ _ _ x HI) as H. rewrite owned_cnt in H. cbn in H. lia. Qed.
+
+Lemma hb_key_cnt hb i : In (Some i) (hkeys hb) -> (1 <= cnt (flat_map hb_ids hb) i)%nat.
+Proof.
+  intros H. apply in_map_iff in H. destruct H as ([r u] & H1 & H2). cbn in H1. subst r.
+  pose proof (cnt_flat_map_in _ _ N.eq_dec hb_ids _ _ i H2) as H. cbn in H. destruct (N.eq_dec i i); [lia|congruence].
+Qed.
+
+Lemma slot_cnt l sl k : In sl l -> s_size sl <> 0 -> s_data sl = Some k -> (1 <= cnt (flat_map slot_ids l) k)%nat.
+Proof.
+  intros Hin Hsz Hd. pose proof (cnt_flat_map_in _ _ N.eq_dec slot_ids _ _ k Hin) as H.
+  assert (E : slot_ids sl = [k]).
+  { unfold slot_ids. destruct (N.eqb_spec (s_size sl) 0); [contradiction|]. rewrite Hd. reflexivity. }
+  rewrite E in H. pose proof (cnt_self_pos k []). lia.
+Qed.
+
+Lemma Inv_live_disjoint p s :
+  Inv p s [] [] ->
+  (forall h1 h2 m1 m2, h1 <> h2 -> nth_error (st_mats s) h1 = Some m1 -> nth_error (st_mats s) h2 = Some m2 ->
+     m_live m1 = true -> m_live m2 = true ->
+     m_hdr m1 <> m_hdr m2 /\
+     (m_win m1 = false -> m_win m2 = false -> forall k1 k2, data_id m1 = Some k1 -> data_id m2 = Some k2 -> k1 <> k2) /\
+     (m_win m1 = false -> forall k, data_id m1 = Some k -> m_hdr m2 <> HMalloc k)) /\
+  (forall h m, nth_error (st_mats s) h = Some m -> m_live m = true ->
+     (m_win m = false -> forall k, data_id m = Some k ->
+        In k (keys (st_heap s)) /\
+        (forall sl, In sl (st_mmc s) -> s_size sl <> 0 -> s_data sl <> Some k) /\
+        ~ In (Some k) (map fst (st_hb s)) /\ m_hdr m <> HMalloc k) /\
+     match m_hdr m with
+     | HSlot c e => In c (map fst (st_hb s)) /\ N.testbit (hb_used (st_hb s) c) e = true
+     | HMalloc i => In i (keys (st_heap s)) /\
+                    (forall sl, In sl (st_mmc s) -> s_size sl <> 0 -> s_data sl <> Some i) /\
+                    ~ In (Some i) (map fst (st_hb s))
+     end).
+Proof.
+  intros HI. split.
+  - intros h1 h2 m1 m2 Hne H1 H2 L1 L2.
+    assert (Htwo : forall k, (1 <= cnt (mat_ids m1) k)%nat -> (1 <= cnt (mat_ids m2) k)%nat -> False).
+    { intros k K1 K2. pose proof (cnt_flat_map_two _ _ N.eq_dec mat_ids _ _ _ _ _ k Hne H1 H2).
+      pose proof (Inv_mats_le _ _ k HI). lia. }
+    split; [|split].
+    + intros Heq. destruct (m_hdr m1) as [c e|k] eqn:E1.
+      * pose proof (cnt_flat_map_two _ _ hslot_dec live_hdr _ _ _ _ _ (HSlot c e) Hne H1 H2) as H.
+        assert (F1 : live_hdr m1 = [HSlot c e]) by (unfold live_hdr; rewrite L1, E1; reflexivity).
+        assert (F2 : live_hdr m2 = [HSlot c e]) by (unfold live_hdr; rewrite L2, <- Heq; reflexivity).
+        rewrite F1, F2, !hcnt_cons in H.
+        destruct (hslot_dec (HSlot c e) (HSlot c e)); [|congruence].
+        pose proof (I_bits _ _ _ _ HI c e) as Hb. pose proof (b2n_le (N.testbit (hb_used (st_hb s) c) e)).
+        unfold live_hdrs in Hb. cbn [count_occ] in *. lia.
+      * apply (Htwo k); apply mat_ids_hdr; auto.
+    + intros W1 W2 k1 k2 D1 D2 <-. apply (Htwo k1); apply mat_ids_data; auto.
+    + intros W1 k D1 Hh. apply (Htwo k); [apply mat_ids_data|apply mat_ids_hdr]; auto.
+  - intros h m Hn Hl. apply nth_error_In in Hn.
+    assert (Hone : forall k, (1 <= cnt (mat_ids m) k)%nat ->
+              In k (keys (st_heap s)) /\
+              (forall sl, In sl (st_mmc s) -> s_size sl <> 0 -> s_data sl <> Some k) /\
+              ~ In (Some k) (map fst (st_hb s))).
+    { intros k Hk. pose proof (cnt_flat_map_in _ _ N.eq_dec mat_ids _ _ k Hn) as H1.
+      pose proof (Inv_mats_le _ _ k HI) as H2. split; [|split].
+      - apply (Inv_in_keys _ _ _ _ k HI). rewrite owned_cnt. lia.
+      - intros sl Hin Hsz Hd. pose proof (slot_cnt _ _ _ Hin Hsz Hd). lia.
+      - intros Hin. pose proof (hb_key_cnt _ _ Hin). lia. }
+    split.
+    + intros Hw k Hd. destruct (Hone k (mat_ids_data _ _ Hl Hw Hd)) as (A & B & C).
+      split; [exact A|]. split; [exact B|]. split; [exact C|]. intros Hh.
+      pose proof (mat_ids_both _ _ Hl Hw Hd Hh). pose proof (cnt_flat_map_in _ _ N.eq_dec mat_ids _ _ k Hn).
+      pose proof (Inv_mats_le _ _ k HI). lia.
+    + destruct (m_hdr m) as [c e|i] eqn:Eh; [|apply Hone; apply mat_ids_hdr; auto].
+      pose proof (cnt_flat_map_in _ _ hslot_dec live_hdr _ _ (HSlot c e) Hn) as H.
+      assert (F1 : live_hdr m = [HSlot c e]) by (unfold live_hdr; rewrite Hl, Eh; reflexivity).
+      rewrite F1, hcnt_cons in H. destruct (hslot_dec (HSlot c e) (HSlot c e)); [|congruence].
+      pose proof (I_bits _ _ _ _ HI c e) as Hb. unfold live_hdrs in Hb.
+      assert (Hbit : N.testbit (hb_used (st_hb s) c) e = true).
+      { destruct (N.testbit (hb_used (st_hb s) c) e); auto. cbn [count_occ b2n] in *. lia. }
+      split; auto.
+      destruct (in_dec (fun a b => reflect_dec _ _ (oeqb_spec a b)) c (hkeys (st_hb s))) as [|n]; auto.
+      rewrite hb_used_notin, N.bits_0 in Hbit by auto. discriminate.
+Qed.
+
+Theorem live_disjoint p ops :
+  params_ok p -> wf_ops ops = true ->
+  let s := fst (run p ops) in
+  (forall h1 h2 m1 m2, h1 <> h2 -> nth_error (st_mats s) h1 = Some m1 -> nth_error (st_mats s) h2 = Some m2 ->
+     m_live m1 = true -> m_live m2 = true ->
+     m_hdr m1 <> m_hdr m2 /\
+     (m_win m1 = false -> m_win m2 = false -> forall k1 k2, data_id m1 = Some k1 -> data_id m2 = Some k2 -> k1 <> k2) /\
+     (m_win m1 = false -> forall k, data_id m1 = Some k -> m_hdr m2 <> HMalloc k)) /\
+  (forall h m, nth_error (st_mats s) h = Some m -> m_live m = true ->
+     (m_win m = false -> forall k, data_id m = Some k ->
+        In k (keys (st_heap s)) /\
+        (forall sl, In sl (st_mmc s) -> s_size sl <> 0 -> s_data sl <> Some k) /\
+        ~ In (Some k) (map fst (st_hb s)) /\ m_hdr m <> HMalloc k) /\
+     match m_hdr m with
+     | HSlot c e => In c (map fst (st_hb s)) /\ N.testbit (hb_used (st_hb s) c) e = true
+     | HMalloc i => In i (keys (st_heap s)) /\
+                    (forall sl, In sl (st_mmc s) -> s_size sl <> 0 -> s_data sl <> Some i) /\
+                    ~ In (Some i) (map fst (st_hb s))
+     end).
+Proof. intros Hp Hwf. apply (Inv_live_disjoint p). apply alloc_inv; auto. Qed.
+
+(** ** 4. matrices may be freed in any order; freeing a view leaves the parent's block alone *)
+Lemma wf_free_live p ops h :
+  params_ok p -> wf_ops (ops ++ [Free h]) = true ->
+  wf_ops ops = true /\
+  exists A, nth_error (st_mats (fst (run p ops))) h = Some A /\ m_live A = true.
+Proof.
+  intros Hp Hwf. rewrite wf_ops_snoc in Hwf. apply andb_prop in Hwf. destruct Hwf as [Hwf Hok]. split; auto.
+  pose proof (run_HInv p ops Hp Hwf) as HH. cbn [op_ok] in Hok.
+  destruct (h_live_nth _ _ _ (H_track _ _ _ _ HH) Hok) as (A & H1 & H2 & _). eauto.
+Qed.
+
+Theorem free_any_order p ops h :
+  params_ok p -> wf_ops (ops ++ [Free h]) = true ->
+  let s := fst (run p ops) in
+  let s' := fst (run p (ops ++ [Free h])) in
+  Inv p s' [] [] /\
+  forall h' m', h' <> h -> nth_error (st_mats s) h' = Some m' ->
+    nth_error (st_mats s') h' = Some m' /\
+    (m_live m' = true -> m_win m' = false -> forall k, data_id m' = Some k ->
+       exists b, heap_find (st_heap s) k = Some b /\ heap_find (st_heap s') k = Some b).
+Proof.
+  intros Hp Hwf. pose proof (alloc_inv p _ Hp Hwf) as HI'.
+  destruct (wf_free_live p ops h Hp Hwf) as (Hwf0 & A & Hn & Hl).
+  pose proof (alloc_inv p _ Hp Hwf0) as HI. cbn zeta. split; [exact HI'|].
+  revert HI'. rewrite run_snoc. destruct (run p ops) as [s tr]. cbn [fst snd step] in *.
+  destruct (mzd_free p s h) as [s' ev] eqn:E. cbn [fst]. intros HI'.
+  destruct (mzd_free_inv _ _ _ _ _ _ HI Hn Hl E) as (_ & _ & R & M & _).
+  intros h' m' Hne Hm'.
+  assert (Hm2 : nth_error (st_mats s') h' = Some m') by (rewrite M, upd_nth_other; auto).
+  split; [exact Hm2|]. intros Hl' Hw' k Hd. unfold data_id in Hd.
+  pose proof (I_mat _ _ _ _ HI m' (nth_error_In _ _ Hm') Hw') as H1.
+  pose proof (I_mat _ _ _ _ HI' m' (nth_error_In _ _ Hm2) Hw') as H2.
+  destruct (m_data m') as [[k0 off]|]; [|discriminate]. cbn in Hd. injection Hd as ->.
+  destruct H1 as (_ & _ & H1). destruct H2 as (_ & _ & H2).
+  destruct (H1 Hl') as (b & Hb & _). destruct (H2 Hl') as (b' & Hb' & _).
+  exists b. split; auto. rewrite <- Hb. apply (R_find _ _ R); apply find_In; congruence.
+Qed.
+
+Theorem window_free_keeps_data p ops h W :
+  params_ok p -> wf_ops (ops ++ [Free h]) = true ->
+  let s := fst (run p ops) in
+  let s' := fst (run p (ops ++ [Free h])) in
+  nth_error (st_mats s) h = Some W -> m_win W = true ->
+  exists P, m_root W <> h /\ nth_error (st_mats s) (m_root W) = Some P /\ m_win P = false /\
+            data_id W = data_id P /\
+            nth_error (st_mats s') (m_root W) = Some P /\
+            (m_live P = true -> forall k, data_id P = Some k ->
+               exists b, heap_find (st_heap s) k = Some b /\ heap_find (st_heap s') k = Some b).
+Proof.
+  intros Hp Hwf. cbn zeta. intros HW Hwin.
+  destruct (wf_free_live p ops h Hp Hwf) as (Hwf0 & _).
+  pose proof (run_HInv p ops Hp Hwf0) as HH.
+  destruct (H_root _ _ _ _ HH h W HW) as (_ & P & R1 & R2 & R3).
+  assert (Hne : m_root W <> h).
+  { intros Heq. rewrite Heq, HW in R1. injection R1 as <-. congruence. }
+  destruct (free_any_order p ops h Hp Hwf) as (_ & F). destruct (F _ _ Hne R1) as (F1 & F2).
+  exists P. repeat (split; [assumption|]). intros Hl k Hk. apply F2; auto.
+Qed.
+
+(** ** 6. no retention: every handle freed, then m4ri_fini => the system heap is empty *)
+Lemma hb_used_nodup hb c u : NoDup (hkeys hb) -> In (c, u) hb -> hb_used hb c = u.
+Proof.
+  induction hb as [|[r w] t IH]; cbn; [tauto|]. intros Hnd [H|H]; inversion Hnd; subst.
+  - injection H as -> ->. destruct (oeqb_spec c c); congruence.
+  - destruct (oeqb_spec r c) as [->|]; auto. exfalso. apply H2. apply in_map_iff. exists (c, u). auto.
+Qed.
+
+Lemma all_dead_ids ms x : (forall m, In m ms -> m_live m = false) -> cnt (flat_map mat_ids ms) x = 0%nat.
+Proof. intros H. apply cnt_flat_map_zero. intros m Hm. unfold mat_ids. rewrite (H m Hm). reflexivity. Qed.
+
+Lemma all_dead_hdrs ms x : (forall m, In m ms -> m_live m = false) -> hcnt (flat_map live_hdr ms) x = 0%nat.
+Proof. intros H. apply cnt_flat_map_zero. intros m Hm. unfold live_hdr. rewrite (H m Hm). reflexivity. Qed.
+
+(* with no live header, only the static header block is linked *)
+Lemma Inv_no_live_hb p s x :
+  Inv p s [] [] -> (forall m, In m (st_mats s) -> m_live m = false) -> cnt (flat_map hb_ids (st_hb s)) x = 0%nat.
+Proof.
+  intros HI Hdead. pose proof (Inv_hb_nodup _ _ _ _ HI) as Hnd.
+  apply cnt_flat_map_zero. intros [c u] Hin. destruct c as [i|]; [|reflexivity]. exfalso.
+  pose proof (I_nz _ _ _ _ HI) as Hnz. rewrite Forall_forall in Hnz. apply (Hnz _ Hin); [discriminate|].
+  cbn [snd]. apply N.bits_inj_0. intros e.
+  pose proof (I_bits _ _ _ _ HI (Some i) e) as Hb. rewrite (hb_used_nodup _ _ _ Hnd Hin) in Hb.
+  unfold live_hdrs in Hb. rewrite all_dead_hdrs in Hb by auto. destruct (N.testbit u e); auto. discriminate.
+Qed.
+
+Lemma count_zero_nil (l : list N) : (forall x, cnt l x = 0%nat) -> l = [].
+Proof. intros H. destruct l as [|a l]; auto. specialize (H a). pose proof (cnt_self_pos a l). lia. Qed.
+
+Lemma all_freed_dead ops s :
+  map mat_info (st_mats s) = track ops -> all_freed ops = true -> forall m, In m (st_mats s) -> m_live m = false.
+Proof.
+  intros Ht Hall m Hm. unfold all_freed in Hall. rewrite <- Ht, forallb_forall in Hall.
+  specialize (Hall (mat_info m) (in_map _ _ _ Hm)). cbn in Hall. destruct (m_live m); auto.
+Qed.
+
+(* what m4ri_fini leaves allocated, for any history: the blocks of live matrices (data and malloc'd
+   headers) and the linked non-static header blocks; nothing in the block cache *)
+Theorem fini_retains p ops :
+  params_ok p -> wf_ops ops = true ->
+  let s' := fst (run p (ops ++ [Fini])) in
+  forall x, cnt (keys (st_heap s')) x
+            = (cnt (flat_map mat_ids (st_mats s')) x + cnt (flat_map hb_ids (st_hb s')) x)%nat.
+Proof.
+  intros Hp Hwf. pose proof (run_HInv p ops Hp Hwf) as HH. cbn zeta. rewrite run_snoc.
+  destruct (run p ops) as [s tr]. cbn [fst snd step] in *.
+  destruct (mmc_cleanup p s) as [s1 ev1] eqn:E1. cbn [fst].
+  assert (E : (let '(s1, ev) := mmc_cleanup p s in (s1, ev ++ [RetFini])) = (s1, ev1 ++ [RetFini])) by (rewrite E1; reflexivity).
+  destruct (fini_inv _ _ _ _ (H_inv _ _ _ _ HH) E) as (A & _ & _ & M & _ & Moff & Mon).
+  intros x. rewrite (I_own _ _ _ _ A), owned_cnt. cbn [count_occ].
+  assert (Hs : cnt (flat_map slot_ids (st_mmc s1)) x = 0%nat); [|lia].
+  destruct (enable_mmc p) eqn:Em; [apply Mon; reflexivity|].
+  rewrite (Moff eq_refl). apply cnt_flat_map_zero. intros sl Hsl.
+  rewrite (slot_ids_empty sl (H_mmc _ _ _ _ HH Em sl Hsl)). reflexivity.
+Qed.
+
+Theorem no_retention p ops :
+  params_ok p -> wf_ops ops = true -> all_freed ops = true ->
+  keys (st_heap (fst (run p (ops ++ [Fini])))) = [].
+Proof.
+  intros Hp Hwf Hall. apply count_zero_nil. intros x. rewrite (fini_retains p ops Hp Hwf x).
+  assert (Hwf' : wf_ops (ops ++ [Fini]) = true) by (rewrite wf_ops_snoc, Hwf; reflexivity).
+  pose proof (run_HInv p _ Hp Hwf') as HH.
+  assert (Hdead : forall m, In m (st_mats (fst (run p (ops ++ [Fini])))) -> m_live m = false).
+  { apply (all_freed_dead (ops ++ [Fini])); [apply (H_track _ _ _ _ HH)|].
+    unfold all_freed in *. rewrite track_snoc. exact Hall. }
+  rewrite all_dead_ids by exact Hdead. rewrite (Inv_no_live_hb p _ x (H_inv _ _ _ _ HH) Hdead). reflexivity.
+Qed.
+
+(** * Non-vacuity: concrete histories at capacities NBLOCKS = 2, CACHE_MAX = 2, THRESHOLD = 1024 *)
+Definition ex_p2 : params := mkParams 2 1024 2 true true.
+Definition ex_p_off : params := mkParams 2 1024 2 false false.     (* the thread-safe configuration *)
+Definition is_sys (e : event) : bool := match e with SysAlloc _ _ | SysFree _ => true | _ => false end.
+
+Example ex_params_ok : params_ok ex_p2 /\ params_ok ex_p_off.
+Proof. split; unfold params_ok; cbn; lia. Qed.
+
+(* three blocks into a 2-slot cache: the third free evicts mm[0]; the next Init of 16 bytes is served
+   from the cache with the dirty block 1 (fill 9), which the model hands out zeroed *)
+Definition ex_evict : list op :=
+  [Init 3 3; Write 0 7; Init 1 64; Write 1 9; Init 2 130; Free 0; Free 1; Free 2; Init 1 64].
+
+Example ex_evict_trace :
+  wf_ops ex_evict = true /\
+  filter is_sys (snd (run ex_p2 ex_evict)) = [SysAlloc 0 48; SysAlloc 1 16; SysAlloc 2 64; SysFree 0] /\
+  heap_find (st_heap (fst (run ex_p2 (firstn 8 ex_evict)))) 1 = Some (mkBlk 16 9) /\
+  heap_find (st_heap (fst (run ex_p2 ex_evict))) 1 = Some (mkBlk 16 0) /\
+  option_map m_data (nth_error (st_mats (fst (run ex_p2 ex_evict))) 3) = Some (Some (1, 0)).
+Proof. vm_compute. repeat split. Qed.
+
+(* 65 headers: the 65th spills into a new 4160-byte block, which is unlinked and freed when it empties;
+   129 headers: two full blocks = CACHE_MAX, the 129th header is a plain 64-byte malloc *)
+Example ex_spill_trace :
+  wf_ops (repeat (Init 0 0) 65 ++ [Free 64]) = true /\
+  filter is_sys (snd (run ex_p2 (repeat (Init 0 0) 65 ++ [Free 64]))) = [SysAlloc 0 4160; SysFree 0] /\
+  filter is_sys (snd (run ex_p2 (repeat (Init 0 0) 129 ++ [Free 128]))) = [SysAlloc 0 4160; SysAlloc 1 64; SysFree 1] /\
+  option_map m_hdr (nth_error (st_mats (fst (run ex_p2 (repeat (Init 0 0) 129)))) 128) = Some (HMalloc 1).
+Proof. vm_compute. repeat split. Qed.
+
+(* views: the parent is freed first, the view afterwards; everything freed, then fini *)
+Definition ex_all : list op :=
+  ex_evict ++ [Window 3 0 0 1 64; Free 3; Free 4; Init 65 64; Free 5].
+
+Example ex_no_retention :
+  wf_ops ex_all = true /\ all_freed ex_all = true /\
+  keys (st_heap (fst (run ex_p2 ex_all))) = [2; 1] /\                (* two blocks sit in the cache ... *)
+  keys (st_heap (fst (run ex_p2 (ex_all ++ [Fini])))) = [] /\        (* ... until m4ri_fini *)
+  keys (st_heap (fst (run ex_p_off ex_all))) = [].                   (* cache disabled: nothing is kept *)
+Proof. vm_compute. repeat split. Qed.
+
+Example ex_free_window :
+  wf_ops [Init 3 3; Write 0 7; Window 0 1 0 3 3; Free 1] = true /\
+  heap_find (st_heap (fst (run ex_p2 [Init 3 3; Write 0 7; Window 0 1 0 3 3; Free 1]))) 0 = Some (mkBlk 48 7).
+Proof. vm_compute. repeat split. Qed.
